@@ -39,6 +39,14 @@ class DecSession:
                          "ro": bool(o.reduce_only), "st": ST.get(str(o.status).upper(), str(o.status))} for o in self.orders]}
 
     def qty_of(self, op):
+        if op["qmode"] == "rest":          # what is held minus the resting sells of that kind (decimal-exact difference)
+            from decimal import Decimal
+            kind = "STOP" if op["typ"] == "STP" else "LIMIT"
+            rest = Decimal(str(self.exchange.assets["BTC"]))
+            for o in self.orders:
+                if o.is_active and o.side == "sell" and o.type == kind:
+                    rest -= Decimal(str(abs(o.qty)))
+            return float(rest)
         if op["qmode"] == "all":
             return self.pos.qty
         if op["qmode"] == "half":
@@ -114,8 +122,10 @@ def one_history(arg):
                 op = {"op": "submit", "side": side, "typ": typ, "ro": False, "qmode": "lit", "qlit": "%.3f" % q, "plit": plit}
             else:
                 ro = rng.random() < 0.5
-                mode = rng.choice(["all", "half", "lit", "lit"])
-                if mode == "all":
+                mode = rng.choice(["all", "half", "lit", "lit", "rest", "rest"])
+                if mode == "rest":
+                    q = s.qty_of({"qmode": "rest", "typ": typ})
+                elif mode == "all":
                     q = base
                 elif mode == "half":
                     q = round(base / 2, 3)
@@ -133,6 +143,8 @@ def one_history(arg):
                         continue           # keep non-reduce-only sells coverable (no oversize fill by construction)
                 elif mode != "lit":
                     continue
+                if mode == "rest" and not ro:
+                    ro = True              # the remainder is sold reduce-only (an oversize fill then closes)
                 op = {"op": "submit", "side": side, "typ": typ, "ro": ro, "qmode": mode, "qlit": "%.3f" % q, "plit": plit}
         elif x < 0.72:
             op = {"op": "exec", "id": rng.choice(act)}
@@ -150,6 +162,51 @@ def one_history(arg):
         if (ev["k"] == "submit" and not ev["acc"]) or ev["exc"] != "none":
             break
     return {"id": tid, "hdr": hdr, "seed": seed, "init": init, "ev": evs, "ops": ops}
+
+
+def split_history(arg):
+    """boundary scenario (fee 0, exact decimals): buy q0, then 2-3 resting sells of one kind that partition q0 exactly
+    (the last one is 'the rest'), so that sell + resting sells of its kind == base held: must be accepted"""
+    tid, hdr, seed = arg
+    rng = random.Random(seed)
+    s = DecSession(hdr)
+    init = s.snapshot()
+    q0 = rng.randint(300, 2999)
+    typ = rng.choice(["LMT", "STP"])
+    price = "%.2f" % (hdr["p0"] / 100 * (1.2 if typ == "LMT" else 0.8))
+    ops = [{"op": "submit", "side": "buy", "typ": "MKT", "ro": False, "qmode": "lit", "qlit": "%.3f" % (q0 / 1000), "plit": price},
+           {"op": "exec", "id": 1}]
+    left = q0
+    for j in range(rng.choice([1, 2])):
+        a = rng.randint(1, left - 1 - (1 if j == 0 else 0))
+        left -= a
+        ops.append({"op": "submit", "side": "sell", "typ": typ, "ro": rng.random() < 0.5, "qmode": "lit",
+                    "qlit": "%.3f" % (a / 1000), "plit": price})
+    ops.append({"op": "submit", "side": "sell", "typ": typ, "ro": rng.random() < 0.5, "qmode": "rest", "qlit": "0", "plit": price})
+    n_sells = len(ops) - 2
+    order = list(range(2, 2 + n_sells))
+    rng.shuffle(order)
+    for i in order:
+        ops.append({"op": "exec", "id": i})
+    evs, done = [], []
+    for op in ops:
+        ev = s.apply(op)
+        done.append(op)
+        evs.append(ev)
+        if (ev["k"] == "submit" and not ev["acc"]) or ev["exc"] != "none":
+            break
+    return {"id": tid, "hdr": hdr, "seed": seed, "init": init, "ev": evs, "ops": done}
+
+
+def split_histories(n, seed, first_id=1):
+    rng = random.Random(seed * 31337 + 7)
+    items = [(first_id + i, {"fee_bp": 0, "start": 5000, "p0": rng.randint(2000, 30000), "no_sell_cancel": True},
+              rng.randrange(10 ** 9)) for i in range(n)]
+    res = run_isolated(split_history, items, procs=min(8, max(1, n // 20)), chunk=100) if n > 20 else [split_history(i) for i in items]
+    for r in res:
+        if isinstance(r, tuple) and r and r[0] == "EXC":
+            raise Machinery("decimal split history child failed: %s" % r[1])
+    return res
 
 
 def random_histories(n, seed, first_id=1, procs=12):
